@@ -22,7 +22,7 @@ RULE = ('cells = (orthogonal wavelet from all 75 of db*, sym*, coif*, haar; dim;
 ASSUMPTIONS = ['float64', 'tolerance scaled by the orthonormality defect of the PyWavelets taps themselves']
 TIMEOUT = {'quick': 900, 'thorough': 3000}
 WORKER_BUDGET = {'quick': 600, 'thorough': 2400}
-MIN_HELD = {'quick': 300, 'thorough': 2000}
+MIN_HELD = {'quick': 300, 'thorough': 1500}
 
 
 def ortho_wavelets():
@@ -50,11 +50,11 @@ def cells(tier, seed):
     for w in ortho_wavelets():
         L = refs.flen(w)
         for J in ([rnd.choice([1, 2, 3])] if tier == 'quick' else [1, 2, 3]):
-            ms = [L // 2, L // 2 + 1, L // 2 + 3]
+            ms = [L // 2, L // 2 + 1, L // 2 + 3] if tier == 'quick' else [L // 2 + i for i in range(6)]
             for m in (rnd.sample(ms, 2) if tier == 'quick' else ms):
                 out.append({'dim': 1, 'wave': w, 'mode': 'periodization', 'J': J, 'shape': [m * 2 ** J], 'N': 2, 'C': 2})
-        if L <= 12:
-            for _ in range(1 if tier == 'quick' else 3):
+        if L <= (12 if tier == 'quick' else 16):
+            for _ in range(1 if tier == 'quick' else 6):
                 J = rnd.choice([1, 2])
                 m1, m2 = L // 2 + rnd.choice([0, 1]), L // 2 + rnd.choice([2, 3])
                 out.append({'dim': 2, 'wave': w, 'mode': 'periodization', 'J': J, 'shape': [m1 * 2 ** J, m2 * 2 ** J],
